@@ -6,6 +6,7 @@ import (
 	"context"
 	"fmt"
 	"io"
+	"strings"
 	"time"
 
 	ch "github.com/ClickHouse/ch-go"
@@ -19,9 +20,10 @@ import (
 // scn is a query scenario: options, the query (with callbacks wired to fa) and the
 // script of the reference peer.
 type scn struct {
-	name string
-	opt  ch.Options
-	mk   func(c *Conn, fa *failAt) (ch.Query, []Step)
+	name  string
+	opt   ch.Options
+	mk    func(c *Conn, fa *failAt) (ch.Query, []Step)
+	fails bool // the query fails on the client side by construction
 }
 
 func u64col(name string, v ...uint64) any {
@@ -104,20 +106,20 @@ func scenarios() []scn {
 	}
 	lz4 := ch.Options{Compression: ch.CompressionLZ4}
 	return []scn{
-		{"insert", ch.Options{}, ins(false)},
-		{"insert-stream", ch.Options{}, ins(true)},
-		{"insert-lz4", lz4, ins(false)},
-		{"select", ch.Options{}, sel(ch.Options{}, false)},
-		{"select-lz4", lz4, sel(lz4, false)},
-		{"select-telemetry", ch.Options{}, sel(ch.Options{}, true)},
-		{"insert-stream-zstd", ch.Options{Compression: ch.CompressionZSTD}, ins(true)},
+		{name: "insert", opt: ch.Options{}, mk: ins(false)},
+		{name: "insert-stream", opt: ch.Options{}, mk: ins(true)},
+		{name: "insert-lz4", opt: lz4, mk: ins(false)},
+		{name: "select", opt: ch.Options{}, mk: sel(ch.Options{}, false)},
+		{name: "select-lz4", opt: lz4, mk: sel(lz4, false)},
+		{name: "select-telemetry", opt: ch.Options{}, mk: sel(ch.Options{}, true)},
+		{name: "insert-stream-zstd", opt: ch.Options{Compression: ch.CompressionZSTD}, mk: ins(true)},
 	}
 }
 
 // earlyProgress is an insert during which the server reports progress while the client is
 // still sending (receiver and sender both active).
 func earlyProgress() scn {
-	return scn{"insert-early-progress", ch.Options{}, func(c *Conn, fa *failAt) (ch.Query, []Step) {
+	return scn{name: "insert-early-progress", mk: func(c *Conn, fa *failAt) (ch.Query, []Step) {
 		col := &proto.ColUInt64{1, 2, 3}
 		q := ch.Query{Body: "INSERT INTO t VALUES", QueryID: "q-insert", Input: proto.Input{{Name: "v", Data: col}},
 			OnProgress: func(ctx context.Context, p proto.Progress) error { return fa.hit() }}
@@ -142,6 +144,24 @@ func earlyProgress() scn {
 			{Name: "await-first-block", AwaitN: 3},
 			{Name: "progress2", Send: w.Progress(refwire.Progress{WroteRows: 2, WroteBytes: 16})},
 			{Name: "await-data", AwaitN: 5},
+			{Name: "eos", Send: EOS(), Term: true},
+		}
+	}}
+}
+
+// badRows is an insert whose input columns have different row counts: the sender fails
+// inside encodeBlock after part of the block has already been chained into the writer.
+func badRows() scn {
+	return scn{name: "insert-bad-rows", fails: true, mk: func(c *Conn, fa *failAt) (ch.Query, []Step) {
+		a := &proto.ColUInt64{1, 2}
+		b := new(proto.ColStr)
+		b.AppendArr([]string{"x", "y", "z"})
+		q := ch.Query{Body: "INSERT INTO t VALUES", QueryID: "q-insert", Input: proto.Input{{Name: "v", Data: a}, {Name: "s", Data: b}}}
+		w := c.W
+		return q, []Step{
+			{Name: "await-query", AwaitN: 2},
+			{Name: "schema", Send: w.Data(0, Col("v", "UInt64"), Col("s", "String"))},
+			{Name: "gap", Gap: 500 * time.Millisecond},
 			{Name: "eos", Send: EOS(), Term: true},
 		}
 	}}
@@ -188,7 +208,7 @@ func body04(s scn, f fault, probe bool) Body {
 			c.C.FailWriteAt = c.HsLen + f.k
 		case "callback":
 			fa.n = f.k
-		case "exc":
+		case "exc", "cancelexc":
 			inj = &Inject{G: f.k, Stop: true, Bytes: c.W.Exception(excReadonly)}
 		case "unknown":
 			inj = &Inject{G: f.k, Stop: true, Bytes: []byte{99}}
@@ -204,8 +224,19 @@ func body04(s scn, f fault, probe bool) Body {
 		}
 		q, steps := s.mk(c, fa)
 		c.RunPeer("peer", c.HsLen, steps, inj)
+		ctx := context.Background()
+		if f.kind == "cancelexc" {
+			// two faults: the caller cancels at some point and the server answers with an exception
+			var cancel context.CancelFunc
+			ctx, cancel = context.WithCancel(ctx)
+			defer cancel()
+			vsched.Go("canceller", func() {
+				vsched.PointCtxWrite("cancel")
+				cancel()
+			})
+		}
 		t0, st0 := time.Now(), vsched.Stolen()
-		derr := c.Cl.Do(context.Background(), q)
+		derr := c.Cl.Do(ctx, q)
 		el := time.Since(t0) - (vsched.Stolen() - st0)
 		name := "C04/" + s.name
 		limit := 3*time.Second + time.Second + time.Second
@@ -223,7 +254,7 @@ func body04(s scn, f fault, probe bool) Body {
 
 // measure runs the fault-free scenario once and returns the sizes needed to enumerate
 // byte-position and callback faults.
-func measure(s scn) (serverBytes, clientBytes, callbacks, termGate int) {
+func measure(s scn) (serverBytes, clientBytes, callbacks, termGate int, broken *Exec) {
 	var fa *failAt
 	x := RunOnce(nil, true, func() Outcome {
 		c, err := Connect(s.opt, baseHello)
@@ -242,22 +273,24 @@ func measure(s scn) (serverBytes, clientBytes, callbacks, termGate int) {
 		derr := c.Cl.Do(context.Background(), q)
 		clientBytes = c.C.OutLen() - c.HsLen
 		pr := c.Probe("measure")
-		if derr != nil || pr.Key != "" {
+		if (derr != nil) != s.fails || pr.Key != "" {
 			return Outcome{Key: "fault-free-run-failed", Detail: fmt.Sprint(derr, pr.Key, pr.Detail)}
 		}
 		return Outcome{Obs: "ok"}
 	})
 	if x.Out.Key != "" || x.Deadlock || len(x.Panics) > 0 {
-		harness("scenario %s does not run fault-free: %+v deadlock=%v panics=%v trace=%v", s.name, x.Out, x.Deadlock, x.Panics, tailS(x.Trace(), 40))
+		// on the unchanged tree every scenario runs fault-free; if it does not, the tree under
+		// verification broke it, and that is reported as a violation by the caller
+		return serverBytes, clientBytes, 0, termGate, &x
 	}
-	return serverBytes, clientBytes, fa.calls, termGate
+	return serverBytes, clientBytes, fa.calls, termGate, nil
 }
 
 // C04 — a failed query leaves the client closed or exactly at a packet boundary.
 func C04(c *vk.Ctx) {
-	c.Rule("scenarios {insert, streamed insert, LZ4/ZSTD inserts, select, LZ4 select, select with logs/profile events} x faults {server exception injected at every gate of the peer script, server stream cut (EOF and reset) after byte k, client write failing after byte k, callback j failing, unknown packet code / well-formed unexpected packet / undecodable block at every gate} x all schedules of the sender, receiver, cancel-watch and peer threads (plus clock steps) up to the stated deviation bound; after Do returns the probe checks closed-or-boundary. distinct_nontrivial = executions (each is a distinct (scenario, fault, schedule) triple).")
+	c.Rule("scenarios {insert, streamed insert, LZ4/ZSTD inserts, insert whose input columns disagree on the row count (the sender fails inside encodeBlock), select, LZ4 select, select with logs/profile events} x faults {server exception injected at every gate of the peer script, server stream cut (EOF and reset) after byte k, client write failing after byte k, callback j failing, unknown packet code / well-formed unexpected packet / undecodable block at every gate, and the double fault caller-cancels + server exception at every gate} x all schedules of the sender, receiver, cancel-watch and peer threads (plus clock steps) up to the stated deviation bound; after Do returns the probe checks closed-or-boundary. distinct_nontrivial = executions (each is a distinct (scenario, fault, schedule) triple).")
 	quick := c.Quick()
-	scs := scenarios()
+	scs := append(scenarios(), badRows())
 	type job struct {
 		s     scn
 		f     fault
@@ -266,7 +299,18 @@ func C04(c *vk.Ctx) {
 	}
 	var jobs []job
 	for si, s := range scs {
-		sb, cb, calls, term := measure(s)
+		sb, cb, calls, term, broken := measure(s)
+		if broken != nil {
+			if c.Shard == 0 {
+				key := broken.Out.Key
+				if key == "" || key == "fault-free-run-failed" || key == "connect" {
+					key = "fault-free-run-fails"
+				}
+				key = strings.TrimPrefix(key, "measure/")
+				c.Violation("C04/"+s.name+"/"+key, s.name+"/none@", fmt.Sprintf("the scenario does not even run without a fault: %s deadlock=%v panics=%v", broken.Out.Detail, broken.Deadlock, broken.Panics), nil)
+			}
+			continue
+		}
 		heavy := si < 3 // the three insert scenarios: exception injection explored deepest
 		core := s.name == "insert" || s.name == "select" || s.name == "select-lz4"
 		for g := 0; g <= term; g++ {
@@ -327,11 +371,24 @@ func C04(c *vk.Ctx) {
 			}
 		}
 		jobs = append(jobs, job{s, fault{kind: "none"}, gb, false})
+		// two faults together: cancellation by the caller and an exception from the server
+		if s.name == "insert" || s.name == "insert-stream" || s.name == "insert-bad-rows" || !quick {
+			for g := 0; g <= term; g++ {
+				cb := 1
+				if quick && s.name != "insert-bad-rows" {
+					cb = 0
+				}
+				jobs = append(jobs, job{s, fault{kind: "cancelexc", k: g}, cb, cb > 0})
+			}
+		}
 	}
 	if !quick {
 		// deepest: the three exception scenarios once more at bound 3 under the budget
 		for si := 0; si < 3; si++ {
-			_, _, _, term := measure(scs[si])
+			_, _, _, term, broken := measure(scs[si])
+			if broken != nil {
+				continue
+			}
 			for g := 0; g <= term; g++ {
 				jobs = append(jobs, job{scs[si], fault{kind: "exc", k: g}, 3, true})
 			}
